@@ -295,6 +295,8 @@ class Unit:
                     "anchors": [{"id": h["id"], "where": h["where"], "text": h["text"], "occ": h["occ"], "loop": h["loop"]} for h in d.hints],
                     "ret_name": o.get("ret"),
                     "no_ptr_rule": bool(o.get("noptr")),
+                    "iter_inline": parse_subst(o.get("iterinline")),
+                    "macro_rules": o.get("macro"), "macro_arg": o.get("macroarg"),
                     "manual": d.manual,
                 })
         return {"items": items}
